@@ -12,6 +12,7 @@ import (
 	"sort"
 	"strconv"
 	"strings"
+	"sync"
 	"time"
 )
 
@@ -145,8 +146,42 @@ func eqInts(a, b []int64) bool {
 	return true
 }
 
-// runModel evaluates a batch of (leg, args) lines on the extracted model.
+// runModel evaluates a batch of (leg, args) lines on the extracted model, split over several processes.
 func runModel(bin string, legs []int, ins [][]int64) ([][]int64, error) {
+	const P = 8
+	if len(ins) < 64 {
+		return runModel1(bin, legs, ins)
+	}
+	outs := make([][]int64, len(ins))
+	errs := make([]error, P)
+	var wg sync.WaitGroup
+	chunk := (len(ins) + P - 1) / P
+	for k := 0; k < P; k++ {
+		lo, hi := k*chunk, min((k+1)*chunk, len(ins))
+		if lo >= hi {
+			continue
+		}
+		wg.Add(1)
+		go func(k, lo, hi int) {
+			defer wg.Done()
+			o, err := runModel1(bin, legs[lo:hi], ins[lo:hi])
+			if err != nil {
+				errs[k] = err
+				return
+			}
+			copy(outs[lo:hi], o)
+		}(k, lo, hi)
+	}
+	wg.Wait()
+	for _, e := range errs {
+		if e != nil {
+			return nil, e
+		}
+	}
+	return outs, nil
+}
+
+func runModel1(bin string, legs []int, ins [][]int64) ([][]int64, error) {
 	cmd := exec.Command(bin)
 	stdin, err := cmd.StdinPipe()
 	if err != nil {
